@@ -9,7 +9,7 @@ from ..cfacts import CUnit, call_args, callee, int_value, is_assign, strip, walk
 from ..core import AnalysisError, Report
 from ..linexpr import Env, c_ir, py_ir, to_lin
 from ..pycfg import path_to, run_typestate
-from ..pyfacts import Repo, dotted, enclosing_handlers, handler_types, norm, walk_no_nested
+from ..pyfacts import Repo, dispatch_return, dotted, enclosing_handlers, handler_types, norm, walk_no_nested
 from ..spec import machine as M
 from ..steps import (CLoop, PyLoop, RUN_REL, READER_REL, c_assigned, c_mentions, event_nodes, guard_interval,
                      path_conditions, py_assigned, py_mentions)
@@ -315,7 +315,17 @@ def rule_flip_expr(rep: Report, all_loops: List[Any], repo: Repo, cu: CUnit) -> 
 
 
 def _bit_of_f(ir: lx.IR, L: Any) -> bool:
-    """ir == 1 << (f & (w-1))"""
+    """ir == 1 << (f & (w-1)), directly or through a single-definition local (a hoisted `flip_mask`)"""
+    for _ in range(3):
+        if ir[0] == 'sym':
+            d = L.env.table.get(ir[1])
+            if d is not None and not isinstance(d, (int, dict)):
+                ir = d
+                continue
+        if ir[0] == 'cast' and len(ir) > 2:
+            ir = ir[2]
+            continue
+        break
     if ir[0] == 'bin' and ir[1] == '<<' and lx.to_lin(ir[2], L.env) == {'': 1}:
         sh = ir[3]
         if sh[0] == 'bin' and sh[1] == '&':
@@ -636,19 +646,21 @@ def rule_term(rep: Report, repo: Repo, cu: CUnit) -> None:
                   expected=f'PyModule_AddIntConstant(module, "{name}", {name})')
     fn = repo.func(RUN_REL, '_run_native')
     mapped = {}
+    # the statements after the engine call dispatch on `cause`; each TERM_* constant is followed through the dispatch (if chain,
+    # membership in a local table, table lookup) to the TerminationCause it returns
+    for name in M.TERM_MAP:
+        ret = dispatch_return(fn.body, 'cause', f'_fjcore.{name}')
+        tc = [dotted(x) for x in ast.walk(ret) if dotted(x).startswith('TerminationCause.')] if ret is not None else []
+        mapped[name] = tc[0].split('.')[1] if tc else None
+    other = dispatch_return(fn.body, 'cause', '<any other value>')
     fallthrough = None
-    for st in fn.body:
-        if isinstance(st, ast.If) and isinstance(st.test, ast.Compare) and len(st.test.ops) == 1 \
-                and isinstance(st.test.ops[0], ast.Eq):
-            sides = [norm(st.test.left), norm(st.test.comparators[0])]
-            term = [s for s in sides if s.startswith('_fjcore.TERM_')]
-            if term and 'cause' in sides and isinstance(st.body[0], ast.Return):
-                tc = [dotted(x) for x in ast.walk(st.body[0]) if dotted(x).startswith('TerminationCause.')]
-                mapped[term[0].split('.')[1]] = tc[0].split('.')[1] if tc else '?'
-        if isinstance(st, ast.Return) and st is fn.body[-1]:
-            tc = [dotted(x) for x in ast.walk(st) if dotted(x).startswith('TerminationCause.')]
-            kws = {k.arg: norm(k.value) for c in ast.walk(st) if isinstance(c, ast.Call) for k in c.keywords}
-            fallthrough = (tc[0].split('.')[1] if tc else '?', kws.get('memory_error_address'))
+    if other is not None:
+        tc = [dotted(x) for x in ast.walk(other) if dotted(x).startswith('TerminationCause.')]
+        kws = {k.arg: norm(k.value) for c in ast.walk(other) if isinstance(c, ast.Call) for k in c.keywords}
+        fallthrough = (tc[0].split('.')[1] if tc else '?', kws.get('memory_error_address'))
+    mapped_mem = mapped.pop('TERM_MEMORY_ERROR', None)
+    rep.check(mapped_mem in (None, 'RuntimeMemoryError'), 'C01.TERM', '_run_native:TERM_MEMORY_ERROR', f'maps to {mapped_mem or "the fall-through"}',
+              f'{RUN_REL}:{fn.lineno} _run_native', expected='RuntimeMemoryError (explicitly or by falling through)')
     for name, cause in M.TERM_MAP.items():
         if name == 'TERM_MEMORY_ERROR':
             continue
